@@ -342,6 +342,13 @@ class Exec:
                 # the empty list literal stored where a list of objects is declared
                 comps = [z3.Const(fresh_name("nil"), z3.ArraySort(z3.IntSort(), srt)) for srt in self.flat.sorts(t.elem)]
                 return VSeq(comps, z3.IntVal(0), t.elem, t.kind)
+            if isinstance(v.et, TOpt) and not isinstance(t.elem, TOpt) \
+                    and len(self.flat.sorts(t.elem)) == len(v.comps) - 1:
+                # a list of optionals stored where a list of plain values is declared: no element may be None
+                q = z3.Int("q%optelem")
+                self.oblige(st, f"L{self.cur_line}.{what}.no_element_is_none",
+                            z3.ForAll([q], z3.Implies(z3.And(0 <= q, q < v.ln), z3.Not(z3.Select(v.comps[0], q)))))
+                return VSeq(v.comps[1:], v.ln, t.elem, v.kind)
             return VSeq(v.comps, v.ln, v.et, t.kind if v.kind == "list" and t.kind != "list" else v.kind)
         return v
 
@@ -662,9 +669,12 @@ class Exec:
             return VInt(z3.If(c, as_int(a), as_int(b)))
         if isinstance(a, VReal) or isinstance(b, VReal):
             return VReal(z3.If(c, as_real(a), as_real(b)))
-        t = self.type_of(a)
-        ta, tb = self.flat.pack(t, a), self.flat.pack(t, b)
-        return self.flat.unpack(t, [z3.If(c, x, y) for x, y in zip(ta, tb)])
+        try:
+            t = self.type_of(a)
+            ta, tb = self.flat.pack(t, a), self.flat.pack(t, b)
+            return self.flat.unpack(t, [z3.If(c, x, y) for x, y in zip(ta, tb)])
+        except (z3.Z3Exception, TypeError, AttributeError, KeyError) as e:
+            raise Unsupported(f"conditional expression whose operands have different shapes ({type(e).__name__})")
 
     def deref_if_needed(self, v):
         return v
